@@ -110,17 +110,22 @@ COUNT_TXT = " Count ladder (DESIGN 0.8): every list position of the grammar at e
 HCOUNT_TXT = " and through the typed API (H-count: whole-list calls and element-by-element linear histories of up to 3n calls, every intermediate state checked with the E3 per-state invariants against the reference model)."
 EXTRA_TEXT = {
  "C01": COUNT_TXT + HCOUNT_TXT + " serde Deserialize (str, String, JSON) and Serialize are among the entry points. A hang is decided on the CPU time of the executing thread (5 s), or 120 s of wall-clock time without CPU use (blocked).",
- "C02": COUNT_TXT + " (variants).",
- "C03": COUNT_TXT + "; all 256 byte values at every byte position of a reduced skeleton set.",
+ "C02": COUNT_TXT + " (variants), wide counts (2^k-1, 2^k, 2^k+1 elements up to 1024 [65536]; variant lists followed by a script / region), near-pair histories (after x, every y that differs from x in one byte or two adjacent bytes).",
+ "C06": " Every CLDR key is also parsed from its UPPER/'_', capitalised and lower-case spelling and maximized.",
+ "C07": " The same laws on the complete subtag domains: every 2- and 3-letter language, every 4-letter script [quick: a stride], every region, each in 42 contexts of the other two subtags.",
+ "C11": " Long variant lists that differ in one position / in length only (count ladder), and the product domain with the operands reached along other routes (parsed from UPPER case with '_', variants set and emptied, clone_from, field assignment).",
+ "C16": " The count ladder among the literals (every list position, n = 0..34 [72]); one program using all nine macros built with the dependency-named features of the facade crates.",
+ "C20": " The count ladder is part of the corpus.",
+ "C03": COUNT_TXT + "; wide counts; near-pair histories; all 256 byte values at every byte position of a reduced skeleton set.",
  "C04": COUNT_TXT + HCOUNT_TXT + " Values whose public field ExtensionsMap::other has been assigned (6 bases x every one and two of the 33 singletons): the text must be the text without them or the text in canonical singleton order.",
  "C05": COUNT_TXT + HCOUNT_TXT,
  "C09": " Count pairs (DESIGN 0.8): for the five list positions with set semantics and every n <= 40 [72] the list in every order shape and with one repeat against the same list in ascending order.",
  "C10": " Clone::clone_from (locale, id, extensions) and mem::take are among the actions; every iterator-returning getter must answer len / size_hint / count / last / nth / fold / skip / step_by like the model's sequence. H-count (DESIGN 0.8): every list dimension at every element count 0..40 [72] in every order shape: whole-list calls and element-by-element linear histories of up to 3n calls with has_* probes over the whole alphabet, every intermediate state checked.",
  "C12": COUNT_TXT + HCOUNT_TXT,
  "C13": COUNT_TXT + HCOUNT_TXT,
- "C14": " Every real-world variant word (217 registered variants) alone and beside another variant on every language listed right-to-left or multi-direction x scripts x regions. The 710 layout locales also through the facade crates built with likely-subtags requested through one facade only (Cargo feature forwarding is part of the configuration).",
+ "C14": " Every real-world variant word (217 registered variants) alone and beside another variant on every language listed right-to-left or multi-direction x scripts x regions. The 710 layout locales also through the facade crates built with likely-subtags requested through one facade only (Cargo feature forwarding is part of the configuration). The complete script domain (all 26^4 scripts with languages never listed right-to-left); two-call histories over a 243-identifier product domain in which any two identifiers share a language, a script or a region.",
  "C17": COUNT_TXT + HCOUNT_TXT + " from_parts on every list of the ladder is compared with parsing the joined text.",
- "C19": COUNT_TXT + " (variants).",
+ "C19": COUNT_TXT + " (variants). Histories on the serde entry points: Deserialize::deserialize_in_place over every (old value, new text) pair of a menu (also inside a Vec), and a serialisation into a writer that refuses followed by a serialisation of another value.",
 }
 
 def main():
